@@ -146,8 +146,8 @@ class Run:
                     self.flags.add(TAILAFTER)
         if name in INPLACE:
             got = outcome(INPLACE[name][0], self.s, rargs[0])
-            if got[0] == 'ret':
-                got = ('ret', None) if got[1] is self.s else ('ret', 'a different object')
+            if got[0] == 'ret':     # `s |= x` rebinds s to whatever the operator returns
+                self.s, got = got[1], ('ret', None)
         else:
             got = outcome((self.s, name), *rargs, **kw)
             if name != 'pop' and got[0] == 'ret':
